@@ -13,6 +13,8 @@
     any bit flipped is detected before delivery . discovery_tamper_detected, discovery_hash_tamper_detected,
                                                   frame_tamper_detected_partial, frame_single_byte_tamper_detected,
                                                   frame_truncation_rejected
+    secrets only for validated identities ....... responder_identity_validated, identity_rule_lattice,
+                                                  responder_rejects_order_two_identity
     never crashes ............................... discovery_total (every byte string), discovery_unguarded_panics_witness
                                                   (the guard is necessary), handshake_total_and_bounded, handler_size_limit
     never allocates beyond the limits ........... frame_alloc_bound, frame_size_accounting, handshake_total_and_bounded,
@@ -629,6 +631,70 @@ theorem frame_to_handler (P : Prims) (d d' : Dir) (conn rest : Bytes) (m : Msg) 
 
 example : handleMsg (fun _ _ => true) m0 = .ok (.processed 3 [0xAA, 0xBB]) := by decide
 example : (frame_to_handler P0 d0 d0' w0 [] m0 (fun _ _ => true) (by decide) _ (by decide : handleMsg (fun _ _ => true) m0 = .ok (.processed 3 [0xAA, 0xBB]))).1 = rfl := rfl
+
+/-! ## Identity validation (the claimed static key of an RLPx initiator / of a discovered node) -/
+
+/-- `responder_identity_validated`: for every validation predicate, ECDH and recovery function and every auth message,
+    the responder derives a token / ephemeral key (the inputs of the session secrets) ONLY for an identity the predicate
+    accepts, the identity it then reports is exactly the claimed one, and every rejected identity is answered with
+    `bad remoteID` before ECDH is attempted. -/
+theorem responder_identity_validated (P : AuthPrims) (m : AuthMsg) :
+    (∀ r, handleAuthMsg P m = .ok r → P.validID m.pub = true ∧ r.remoteID = m.pub ∧ P.ecdh m.pub = some r.token) ∧
+    (P.validID m.pub = false → ∀ P' : AuthPrims, P'.validID = P.validID → handleAuthMsg P' m = .err .badRemoteID) := by
+  constructor
+  · intro r h
+    unfold handleAuthMsg at h
+    cases hv : P.validID m.pub with
+    | false => simp [hv] at h
+    | true =>
+      simp only [hv, Bool.not_true, Bool.false_eq_true, if_false] at h
+      cases he : P.ecdh m.pub with
+      | none => simp [he] at h
+      | some token =>
+        simp only [he] at h
+        cases hx : xorInto token m.nonce 0 with
+        | err e => simp [hx] at h
+        | panic p => simp [hx] at h
+        | ok signed =>
+          simp only [hx] at h
+          cases hr : P.recover signed m.sig with
+          | none => simp [hr] at h
+          | some eph =>
+            simp only [hr] at h
+            injection h with h
+            rw [← h]
+            exact ⟨rfl, rfl, rfl⟩
+  · intro hv P' hP
+    unfold handleAuthMsg
+    rw [hP, hv]
+    rfl
+
+/-- the curve rule itself (y² = x³ + 7 mod P on the two halves): the degenerate and off-curve identities of the
+    harness lattice are refused, among them (1,0) — a point of order two on y² = x³ − 1, the invalid-curve identity
+    whose "shared secret" takes only four values — and the generator is accepted. -/
+def idOf (x y : Nat) : Bytes :=
+  List.replicate (32 - (beBytes x).length) 0 ++ beBytes x ++ (List.replicate (32 - (beBytes y).length) 0 ++ beBytes y)
+def secpGx : Nat := 0x79BE667EF9DCBBAC55A06295CE870B07029BFCDB2DCE28D959F2815B16F81798
+def secpGy : Nat := 0x483ADA7726A3C4655DA4FBFC0E1108A8FD17B448A68554199C47D08FFB10D4B8
+
+theorem identity_rule_lattice :
+    idOnCurve (idOf 0 0) = false ∧ idOnCurve (idOf 1 0) = false ∧ idOnCurve (idOf 0 1) = false ∧
+    idOnCurve (idOf (secpP - 1) 0) = false ∧ idOnCurve (idOf (secpP - 1) 1) = false ∧ idOnCurve (idOf secpP secpP) = false ∧
+    idOnCurve (idOf secpGx (secpGy + 1)) = false ∧ idOnCurve (idOf secpGx secpGx) = false ∧ idOnCurve [] = false ∧
+    idOnCurve (idOf secpGx secpGy) = true ∧ idOnCurve (idOf secpGx (secpP - secpGy)) = true := by
+  decide
+
+/-- consequence: with the curve rule as the validation predicate the responder answers the order-two identity (1,0)
+    with `bad remoteID`, whatever ECDH and recovery would return. -/
+theorem responder_rejects_order_two_identity (P : AuthPrims) (hP : P.validID = idOnCurve) (sig nonce : Bytes) :
+    handleAuthMsg P { sig := sig, pub := idOf 1 0, nonce := nonce } = .err .badRemoteID :=
+  (responder_identity_validated P { sig := sig, pub := idOf 1 0, nonce := nonce }).2
+    (by rw [hP]; exact identity_rule_lattice.2.1) P rfl
+
+set_option maxRecDepth 100000 in
+/-- non-vacuity: a responder run that does derive secrets (generator as the claimed identity). -/
+example : (handleAuthMsg { validID := idOnCurve, ecdh := fun _ => some (List.replicate 32 1), recover := fun _ _ => some [4] }
+    { sig := [], pub := idOf secpGx secpGy, nonce := List.replicate 32 2 }).isOk = true := by decide
 
 /-- `readHandshakeMsg` (both packets): for every input, with ECIES plaintexts of the length ECIES produces, the reader
     never panics (the `decodePlain` slices and the prefix slices stay in range) and never grows its buffer beyond
